@@ -316,3 +316,48 @@ def p2b(prog, tier="quick"):
     if not underflow_throws:
         findings.append({"key": "P2b:underflow", "where": "libzwerg/stack.hh", "msg": "pop on an empty stack no longer raises an error", "detail": None})
     return inst, findings
+
+
+# ops that by definition keep operand values (and their positions): stack shuffling and value transfer
+REPUSH_OK = {
+    "op_swap": "shuffling word", "op_rot": "shuffling word", "op_over": "shuffling word", "op_dup": "shuffling word",
+    "op_drop_below": "keeps TOS while dropping the slots below it (backtick capture)",
+    "op_subx": "transfers the values bound by let / infix operands from the sub-expression's stack",
+    "op_lex_closure": "moves captured up-values into the closure",
+}
+
+
+def p1c(prog):
+    """an operation that computes a result never hands the popped operand back as that result: results are freshly
+    constructed (and so numbered afresh); only the shuffling words re-push operands"""
+    import r_stream
+    inst, findings = [], []
+    n = 0
+    for f in r_stream.next_overrides(prog):
+        cls = f["cls"].split("<")[0].split("::")[-1]
+        popped = {}
+        for x in walk(f["body"]):
+            if x.get("k") == "decl":
+                for v in x["vars"]:
+                    i = unwrap(v.get("init"))
+                    if isinstance(i, dict) and i.get("k") == "call" and i.get("fn") in ("pop", "pop_as") and i.get("cls") == "stack":
+                        popped[v["id"]] = v["n"]
+        pushes = [c for c in calls(f["body"]) if c.get("f") == "stack::push"]
+        if not pushes:
+            continue
+        n += 1
+        re = []
+        for c in pushes:
+            a = unwrap(c["a"][0])
+            if isinstance(a, dict) and a.get("k") == "ref" and a.get("id") in popped:
+                re.append((c["l"], popped[a["id"]]))
+        key = "P1c:" + f["q"].split("<")[0]
+        if re and cls not in REPUSH_OK:
+            findings.append({"key": key, "where": re[0][0],
+                             "msg": "%s pushes the operand `%s` it popped back as its result: the value keeps the position number of whatever produced it, so this operation does not number its results afresh (`[5, 6] elem dec pos` would give 0 1)" % (f["q"].split("<")[0], re[0][1]),
+                             "detail": None})
+        elif not any(i[0] == key for i in inst):
+            inst.append((key, {"pushes": len(pushes), "re_pushes_operands": bool(re), "allowed_because": REPUSH_OK.get(cls) if re else None}))
+    if n < 15:
+        raise Broken("only %d pushing next() overrides found (floor 15)" % n)
+    return inst, findings
